@@ -411,18 +411,23 @@ var lastStates map[int64]string
 
 // goroutineStates returns the scheduler state of every live goroutine ("chan receive",
 // "select", "sync.RWMutex.Lock", "running", "runnable", ...).
-func goroutineStates() map[int64]string {
+func goroutineStates() map[int64]string { return goroutineStatesBuf(&stackBuf) }
+
+// goroutineStatesBuf: the same with the caller's own buffer (the probe is used by the driver and,
+// from inside logger callbacks, by the goroutine under test; a shared lock would itself show up
+// as a blocked state).
+func goroutineStatesBuf(buf *[]byte) map[int64]string {
 	for {
-		n := runtime.Stack(stackBuf, true)
-		if n < len(stackBuf) {
+		n := runtime.Stack(*buf, true)
+		if n < len(*buf) {
 			out := map[int64]string{}
-			for _, m := range reGoHeaders.FindAllSubmatch(stackBuf[:n], -1) {
+			for _, m := range reGoHeaders.FindAllSubmatch((*buf)[:n], -1) {
 				id, _ := strconv.ParseInt(string(m[1]), 10, 64)
 				out[id] = string(m[2])
 			}
 			return out
 		}
-		stackBuf = make([]byte, 2*len(stackBuf))
+		*buf = make([]byte, 2*len(*buf))
 	}
 }
 
@@ -449,12 +454,22 @@ type thread struct {
 }
 
 type threadSet struct {
-	ts []*thread
+	mu      sync.Mutex
+	ts      []*thread
+	hookBuf []byte
+}
+
+func (s *threadSet) all() []*thread {
+	s.mu.Lock()
+	defer s.mu.Unlock()
+	return append([]*thread{}, s.ts...)
 }
 
 func (s *threadSet) spawn(f func()) {
 	t := &thread{}
+	s.mu.Lock()
 	s.ts = append(s.ts, t)
+	s.mu.Unlock()
 	go func() {
 		id := curGoid()
 		t.mu.Lock()
@@ -470,15 +485,33 @@ func (s *threadSet) spawn(f func()) {
 // quiescent waits until every tracked goroutine has finished or is blocked. No timing is
 // involved in the judgement; the deadline only bounds the wait.
 func (s *threadSet) quiescent(deadline time.Duration) bool {
+	return s.quiescentBut(0, deadline, &stackBuf)
+}
+
+// othersQuiescent is for callbacks running ON a tracked goroutine (logger calls of the code under
+// test): it waits until every OTHER tracked goroutine has finished or is blocked, which turns
+// the callback into a schedule point - whatever the others can do while the caller sits between
+// the two statements around its log call, they have done when it returns.
+func (s *threadSet) othersQuiescent(deadline time.Duration) bool {
+	s.mu.Lock()
+	if s.hookBuf == nil {
+		s.hookBuf = make([]byte, 1<<18)
+	}
+	s.mu.Unlock()
+	return s.quiescentBut(curGoid(), deadline, &s.hookBuf)
+}
+
+func (s *threadSet) quiescentBut(skip int64, deadline time.Duration, buf *[]byte) bool {
 	end := time.Now().Add(deadline)
 	for spin := 0; ; spin++ {
 		ready := true
-		live := make([]*thread, 0, len(s.ts))
-		for _, t := range s.ts {
+		ts := s.all()
+		live := make([]*thread, 0, len(ts))
+		for _, t := range ts {
 			t.mu.Lock()
 			id, fin := t.goid, t.fin
 			t.mu.Unlock()
-			if fin {
+			if fin || (skip != 0 && id == skip) {
 				continue
 			}
 			if id == 0 {
@@ -488,8 +521,10 @@ func (s *threadSet) quiescent(deadline time.Duration) bool {
 			live = append(live, t)
 		}
 		if ready {
-			states := goroutineStates()
-			lastStates = states
+			states := goroutineStatesBuf(buf)
+			if skip == 0 {
+				lastStates = states
+			}
 			ok := true
 			for _, t := range live {
 				st, present := states[t.goid]
@@ -522,7 +557,7 @@ func (s *threadSet) quiescent(deadline time.Duration) bool {
 }
 
 func (s *threadSet) allFinished() bool {
-	for _, t := range s.ts {
+	for _, t := range s.all() {
 		t.mu.Lock()
 		fin := t.fin
 		t.mu.Unlock()
